@@ -211,6 +211,12 @@ def run(tier):
         if len(ck.samples) < 2 and p.get("exprs"):
             ck.sample({"checks": p["exprs"][:6], "expected_output": v["out"][:9]})
 
+    # size ladders: this property's sized things at every size of a ladder straddling powers of two (vfpy/gen/feat_scale.py)
+    from ..gen import feat_scale as _scale
+    for _p in _scale.programs("C13", ck.rng.fork("scale"), quick):
+        ck.count("scale_programs")
+        ck.count("scale_template_" + _p["scale"][0])
+        plist.append(_p)
     checked, discarded = modelcheck.check_programs(ck, plist, on_result=seen, opts={"gc": "never"})
     ck.evaluations = ck.coverage.get("individual_checks", ck.evaluations)
     ck.coverage["programs_checked"] = checked
